@@ -23,7 +23,13 @@ import (
 	"time"
 )
 
-const verifDir = "/verif"
+// verifDir is the home of the framework (the directory of the check script; /verif unless VERIF_HOME says otherwise).
+var verifDir = func() string {
+	if v := os.Getenv("VERIF_HOME"); v != "" {
+		return v
+	}
+	return "/verif"
+}()
 
 // ---------------------------------------------------------------------------------------------
 // PRNG (splitmix64): case lists are a pure function of (seed, tier, property id).
